@@ -159,6 +159,10 @@ def one_config(R, wd, nt, f, n, ordered, bound, pathcap):
     Only a failure of the model's own invariants / deadlock freedom is a failure of this part."""
     try:
         return one_config_(R, wd, nt, f, n, ordered, bound, pathcap)
+    except subprocess.TimeoutExpired:
+        R.count("configs_conformance_timed_out")
+        R.cap("conformance run for NT=%d F=%d N=%d ORD=%s exceeded its time limit: model not used as evidence for this configuration" % (nt, f, n, ordered))
+        return 0, 0, 0
     except Unbound as e:
         R.count("configs_model_not_bound")
         R.cap("model not bound to this tree for %s: %s" % ("NT=%d F=%d N=%d ORD=%s" % (nt, f, n, ordered), str(e)[:300]))
@@ -183,7 +187,7 @@ def one_config_(R, wd, nt, f, n, ordered, bound, pathcap):
     # impl -> model
     tr = os.path.join(wd, "impl.txt")
     subprocess.run([RING, "--dump-traces", implcfg, "--bound", str(bound), "--outfile", tr], check=True, cwd=wd,
-                   stdout=subprocess.DEVNULL, stderr=subprocess.DEVNULL, timeout=1700)
+                   stdout=subprocess.DEVNULL, stderr=subprocess.DEVNULL, timeout=900)
     n_impl = 0
     for line in open(tr):
         verdict, steps, ev, msg = parse_trace(line)
@@ -209,7 +213,7 @@ def one_config_(R, wd, nt, f, n, ordered, bound, pathcap):
             fh.write(",".join(str(nodes[x]["last"][0]) for x in p[1:]) + "\n")
     of = os.path.join(wd, "forced.txt")
     subprocess.run([RING, "--run-tids", implcfg, "--tidsfile", tf, "--outfile", of], check=True, cwd=wd,
-                   stdout=subprocess.DEVNULL, stderr=subprocess.DEVNULL, timeout=1700)
+                   stdout=subprocess.DEVNULL, stderr=subprocess.DEVNULL, timeout=900)
     lines = open(of).read().splitlines()
     n_model = 0
     for p, line in zip(paths, lines):
